@@ -1,0 +1,43 @@
+//go:build verif
+
+package ntp
+
+// Contracts and ghost harnesses for the verification machinery in /verif.
+// Nothing in this file is compiled without the build tag "verif".
+
+import "time"
+
+//@ func Time64FromTime
+//@   ensures seconds: mathint(result.Seconds) == floormod(mathint(t.Unix())+2208988800, 4294967296)
+//@   ensures fraction: mathint(result.Fraction) == mathint(t.Nanosecond())*4294967296/1000000000
+
+// The result is the unique instant whose seconds are congruent to the NTP seconds (mod 2^32)
+// and lie within [t0-2^31, t0+2^31): this is what "relative to any reference time within 2^31
+// seconds of it" in the property means for the era.
+//@ func TimeFromTime64
+//@   requires 0 <= t0.Unix() && t0.Unix() <= 1099511627776
+//@   ensures congruent: floormod(mathint(result.Unix())+2208988800, 4294967296) == mathint(t.Seconds)
+//@   ensures window: mathint(t0.Unix())-2147483648 <= mathint(result.Unix()) && mathint(result.Unix()) < mathint(t0.Unix())+2147483648
+//@   ensures nanos: mathint(result.Nanosecond()) == mathint(t.Fraction)*1000000000/4294967296
+
+//@ func (Time64).Before
+//@   ensures lex: result == (mathint(t.Seconds)*4294967296+mathint(t.Fraction) < mathint(u.Seconds)*4294967296+mathint(u.Fraction))
+
+//@ func (Time64).After
+//@   ensures lex: result == (mathint(t.Seconds)*4294967296+mathint(t.Fraction) > mathint(u.Seconds)*4294967296+mathint(u.Fraction))
+
+//@ lemma roundTrip(t time.Time, t0 time.Time)
+//@   requires 0 <= t0.Unix() && t0.Unix() <= 1099511627776
+//@   requires mathint(t0.Unix())-2147483648 <= mathint(t.Unix()) && mathint(t.Unix()) < mathint(t0.Unix())+2147483648
+//@   ensures TimeFromTime64(Time64FromTime(t), t0).Unix() == t.Unix()
+//@   ensures t.Nanosecond()-1 <= TimeFromTime64(Time64FromTime(t), t0).Nanosecond() && TimeFromTime64(Time64FromTime(t), t0).Nanosecond() <= t.Nanosecond()
+//@   ensures !TimeFromTime64(Time64FromTime(t), t0).After(t)
+
+//@ lemma roundTripMonotone(t time.Time, u time.Time, t0 time.Time)
+//@   requires 0 <= t0.Unix() && t0.Unix() <= 1099511627776
+//@   requires mathint(t0.Unix())-2147483648 <= mathint(t.Unix()) && mathint(t.Unix()) < mathint(t0.Unix())+2147483648
+//@   requires mathint(t0.Unix())-2147483648 <= mathint(u.Unix()) && mathint(u.Unix()) < mathint(t0.Unix())+2147483648
+//@   requires !t.After(u)
+//@   ensures !TimeFromTime64(Time64FromTime(t), t0).After(TimeFromTime64(Time64FromTime(u), t0))
+
+var _ time.Time
